@@ -142,6 +142,7 @@ TOTAL_CALLS = {
     "typing.cast", "random.uniform", "random.seed", "random.shuffle", "random.random",
     "uuid.uuid4", "datetime.datetime.utcnow", "datetime.date.today", "datetime.timedelta",
     "datetime.datetime.now", "collections.defaultdict", "os.linesep",
+    "itertools.count", "itertools.chain", "itertools.filterfalse",      # lazy: nothing is walked when they are built
     "builtins.object.__repr__", "builtins.object.__str__",      # '<T object at 0x..>': no conversion of the value itself
 }
 
